@@ -144,7 +144,7 @@ def rec(matches):
 
 def plan(tier, seed):
     n = 14 if tier == "quick" else 46
-    return [{"kind": "shared", "n": 150 if tier == "quick" else 800}, {"kind": "shared", "n": 150 if tier == "quick" else 800}] + [{"kind": ["std", "ext", "ext"][i % 3], "n": 600 if tier == "quick" else 3000} for i in range(n)]
+    return [{"kind": "scale", "lengths": [255, 257, 1025, 4097, 16383, 16384]}, {"kind": "scale", "lengths": [16385, 20000, 32769]}, {"kind": "scale", "lengths": [65535, 65537] if tier == "quick" else [65535, 65537, 131073]}, {"kind": "shared", "n": 150 if tier == "quick" else 800}, {"kind": "shared", "n": 150 if tier == "quick" else 800}] + [{"kind": ["std", "ext", "ext"][i % 3], "n": 600 if tier == "quick" else 3000} for i in range(n)]
 
 
 def install():
@@ -240,6 +240,33 @@ def run_shared(ctx, text, hist, case=None):
             return
 
 
+def scale_doc(n):
+    return {"a": [[i] for i in range(n)], "o": {"k%d" % i: i for i in range(n)}}
+
+
+def scale_texts(n):
+    return ["$.a[*]", "$.a[*][0]", "$.a[?# >= %d && # < %d]" % (n - 6, n), "$.a[?@[0] >= %d]" % (n - 3), "$.a[-3:]", "$.a[::%d]" % -(n // 4), "$.o.*", "$.o[?# == 'k%d']" % (n - 1),
+            "$.a[?@[0] == $.a[-1][0]]", "$..[?@[0] == %d]" % (n - 1), "$.o[~]", "$.a[%d, -1, %d]" % (n - 1, n), "$.a[?# > %d][0]" % (n - 3), "$..a[*]", "$.o[?@ >= %d]" % (n - 2)]
+
+
+def run_scale(ctx, n, text, doc=None):
+    """Sync against async on arrays and objects of length n (sizes around round thresholds)."""
+    import jsonpath
+
+    env = jsonpath.DEFAULT_ENV
+    doc = doc or scale_doc(n)
+    s = sync_outcome(env, text, doc)
+    a = asyncio.run(async_outcome(env, text, doc))
+    ctx.evaluation()
+    ctx.case(h("scale", n, text), s[0][0] == "raise" or bool(s[0][1]))
+    ctx.cell("flavour_x_outcome", "scale %s" % (s[0][0] if s[0][0] == "ok" else s[0][1]))
+    if a != s:
+        i = next((i for i, (x, y) in enumerate(zip(a[0][1], s[0][1])) if x != y), None) if a[0][0] == s[0][0] == "ok" else None
+        ctx.violation("async-differs:scale", {"kind": "scale", "n": n, "text": text},
+                      {"text": text, "length": n, "first_difference_at_match": i, "sync": repr(s[0][1][i] if i is not None else s[0][:1])[:300], "async": repr(a[0][1][i] if i is not None else a[0][:1])[:300],
+                       "findall_equal": a[1] == s[1]})
+
+
 def run(spec, ctx):
     import random
 
@@ -248,6 +275,13 @@ def run(spec, ctx):
     install()
     r = ctx.rng
     env = jsonpath.DEFAULT_ENV
+    if spec.get("kind") == "scale":
+        for n in spec["lengths"]:
+            doc = scale_doc(n)
+            for text in scale_texts(n):
+                run_scale(ctx, n, text, doc)
+            ctx.cell("scale", "length=%d" % n)
+        return
     if spec.get("kind") == "shared":
         from .c09 import gen_case as gen_hist_case
 
@@ -366,6 +400,9 @@ def replay(case, ctx):
     install()
     if case.get("kind") == "shared":
         run_shared(ctx, case["text"], case["hist"], case)
+        return
+    if case.get("kind") == "scale":
+        run_scale(ctx, case["n"], case["text"])
         return
     env = jsonpath.DEFAULT_ENV
     doc = case["doc"]
